@@ -219,6 +219,31 @@ func cmdCtx(args []string) {
 		}
 	}
 	report("cancel-during", true, "40 runs: context.Canceled / DeadlineExceeded within 2s, state after a whole number of Steps")
+	// 4. bounded delay for an I/O loop: the device takes real time per access, so "a few more instructions" after
+	//    cancellation must stay a few — whatever the loop is made of
+	for i := 0; i < 4; i++ {
+		m := z80.MapMemory{}
+		m.Put(0x0100, 0xdb, 0x10, 0x18, 0xfc) // IN A,(10h) ; JR -4
+		ctx, cancel := context.WithCancel(context.Background())
+		if i%2 == 1 {
+			cancel()
+			ctx, cancel = context.WithTimeout(context.Background(), 3*time.Millisecond)
+		}
+		dev := &slowIO{ctx: ctx}
+		cpu := &z80.CPU{States: z80.States{SPR: z80.SPR{PC: 0x0100, SP: 0xf000}}, Memory: m, IO: dev}
+		if i%2 == 0 {
+			go func() { time.Sleep(3 * time.Millisecond); cancel() }()
+		}
+		t0 := time.Now()
+		err := cpu.Run(ctx)
+		el := time.Since(t0)
+		cancel()
+		if err == nil || dev.late > 40 || (cpu.PC != 0x0100 && cpu.PC != 0x0102) {
+			report("cancel-io-loop", false, fmt.Sprintf("i=%d err=%v elapsed=%v port_reads=%d reads_begun_after_cancellation=%d PC=%04x (the device sleeps 200us per read; at most a few reads may follow the cancellation)", i, err, el, dev.total, dev.late, cpu.PC))
+			return
+		}
+	}
+	report("cancel-io-loop", true, "4 runs: an I/O loop with a slow device stops within a few port reads of the cancellation / deadline")
 	after := settle(base)
 	report("leak-cancelled", after <= base, fmt.Sprintf("goroutines_before=%d after=%d", base, after))
 }
@@ -274,3 +299,22 @@ func cmdFlags() {
 	}
 	fmt.Printf("done get=%d set=%d reset=%d u16=%d const=%d pairs=65536 values=65536\n", bad["get"], bad["set"], bad["reset"], bad["u16"], bad["const"])
 }
+
+// slowIO: every port read takes 200us; counts the reads that BEGIN after the context is done (and stops sleeping after
+// 400 of them so that a failing run still ends quickly)
+type slowIO struct {
+	ctx         context.Context
+	total, late int
+}
+
+func (d *slowIO) In(uint8) uint8 {
+	d.total++
+	if d.ctx.Err() != nil {
+		d.late++
+	}
+	if d.late < 400 {
+		time.Sleep(200 * time.Microsecond)
+	}
+	return 0
+}
+func (d *slowIO) Out(uint8, uint8) {}
